@@ -79,13 +79,18 @@ fn deliveries(cfg: &RunCfg, rec: &RunRecord) -> Vec<Deliv> {
                 announced,
                 items,
                 impossible,
+                skipped,
                 ..
             } => {
                 if *impossible {
                     continue;
                 }
-                for j in 0..(*announced).max(items.len()) {
-                    let o = items.get(j);
+                for j in 0..(*announced).max(items.len() + skipped) {
+                    let o = if j >= *skipped {
+                        items.get(j - skipped)
+                    } else {
+                        None
+                    };
                     v.push(Deliv {
                         call: ci,
                         tid: c.tid,
@@ -399,9 +404,18 @@ pub fn evaluate_single(cfg: &RunCfg, rec: &RunRecord) -> (Vec<Finding>, Facts) {
                 lens,
                 exhausted,
                 impossible,
+                skipped,
             } = &c.res
             {
                 let n = c.arg;
+                let skipped = *skipped;
+                let want_len = |j: usize| -> usize {
+                    if j == 0 {
+                        *announced
+                    } else {
+                        announced.wrapping_sub(skipped + j)
+                    }
+                };
                 let mut bad: Option<String> = None;
                 if *impossible {
                     bad = Some(format!("announced an impossible length {announced}"));
@@ -409,17 +423,17 @@ pub fn evaluate_single(cfg: &RunCfg, rec: &RunRecord) -> (Vec<Finding>, Facts) {
                     bad = Some("returned an empty chunk instead of reporting the end".into());
                 } else if *announced > n {
                     bad = Some(format!("announced {announced} elements for chunk size {n}"));
-                } else if *exhausted && items.len() != *announced {
+                } else if *exhausted && items.len() + skipped != *announced {
                     bad = Some(format!(
-                        "announced {announced} elements but yielded {}",
+                        "announced {announced} elements but yielded {} (after nth({skipped}))",
                         items.len()
                     ));
-                } else if items.len() > *announced {
+                } else if items.len() + skipped > *announced {
                     bad = Some(format!(
-                        "yielded {} elements, more than the announced {announced}",
+                        "yielded {} elements after nth({skipped}), more than the announced {announced}",
                         items.len()
                     ));
-                } else if lens.iter().enumerate().any(|(j, l)| *l != announced - j) {
+                } else if lens.iter().enumerate().any(|(j, l)| *l != want_len(j)) {
                     bad = Some(format!(
                         "len() did not count down from {announced}: {:?}",
                         lens
@@ -427,10 +441,10 @@ pub fn evaluate_single(cfg: &RunCfg, rec: &RunRecord) -> (Vec<Finding>, Facts) {
                 } else if items
                     .iter()
                     .enumerate()
-                    .any(|(j, o)| position(cfg, o) != (*begin + j) as i128)
+                    .any(|(j, o)| position(cfg, o) != (*begin + skipped + j) as i128)
                 {
                     bad = Some(format!(
-                        "elements are not the consecutive positions from begin index {begin}: {:?}",
+                        "elements are not the consecutive positions from begin index {begin} (first taken with nth({skipped})): {:?}",
                         items.iter().map(|o| position(cfg, o)).collect::<Vec<_>>()
                     ));
                 } else if *announced < n && begin + announced != len {
@@ -616,7 +630,7 @@ pub fn evaluate_single(cfg: &RunCfg, rec: &RunRecord) -> (Vec<Finding>, Facts) {
                         }
                     }
                 }
-                (k, Res::Chunk { begin, announced, impossible, items, exhausted, .. }) if k.is_pull() => {
+                (k, Res::Chunk { begin, announced, impossible, items, exhausted, skipped, .. }) if k.is_pull() => {
                     if *impossible || c.arg == 0 {
                         representable = false;
                         continue;
@@ -625,9 +639,9 @@ pub fn evaluate_single(cfg: &RunCfg, rec: &RunRecord) -> (Vec<Finding>, Facts) {
                     let consistent = items
                         .iter()
                         .enumerate()
-                        .all(|(j, o)| position(cfg, o) == (*begin + j) as i128)
-                        && items.len() <= *announced
-                        && (!*exhausted || items.len() == *announced);
+                        .all(|(j, o)| position(cfg, o) == (*begin + skipped + j) as i128)
+                        && items.len() + skipped <= *announced
+                        && (!*exhausted || items.len() + skipped == *announced);
                     if !consistent && !chunk_flagged {
                         chunk_flagged = true;
                         out.push(f(
@@ -1161,10 +1175,18 @@ fn evaluate_c16_inner(cfg: &RunCfg, rec: &RunRecord) -> (Vec<Finding>, Facts) {
                 delivered += 1;
                 Act::Pull(1, Some((a as usize, 1)))
             }
-            (k, Res::Chunk { begin, announced, items, lens, impossible, .. }) if k.is_pull() => {
+            (k, Res::Chunk { begin, announced, items, lens, impossible, skipped, .. }) if k.is_pull() => {
                 let n = c.arg;
                 let b = *begin as u128;
                 let a = *announced as u128;
+                let sk = *skipped as u128;
+                let want_len = |j: usize| -> u128 {
+                    if j == 0 {
+                        a
+                    } else {
+                        a.wrapping_sub(sk + j as u128)
+                    }
+                };
                 let mut bad: Option<String> = None;
                 if n == 0 {
                     bad = Some("a pull with chunk size zero returned a chunk".into());
@@ -1177,13 +1199,13 @@ fn evaluate_c16_inner(cfg: &RunCfg, rec: &RunRecord) -> (Vec<Finding>, Facts) {
                 } else if items
                     .iter()
                     .enumerate()
-                    .any(|(j, o)| pos(o) != (b + j as u128) as i128)
+                    .any(|(j, o)| pos(o) != (b + sk + j as u128) as i128)
                 {
                     bad = Some(format!(
-                        "values {:?} are not the consecutive positions from begin index {b} (start {start})",
+                        "values {:?} are not the consecutive positions from begin index {b} (start {start}, first taken with nth({sk}))",
                         items.iter().map(|o| o.raw).collect::<Vec<_>>()
                     ));
-                } else if lens.iter().enumerate().any(|(j, l)| *l as u128 != a - j as u128) {
+                } else if lens.iter().enumerate().any(|(j, l)| *l as u128 != want_len(j)) {
                     bad = Some(format!("len() did not count down from {a}: {:?}", lens));
                 }
                 if let Some(bad) = bad {
@@ -1194,7 +1216,7 @@ fn evaluate_c16_inner(cfg: &RunCfg, rec: &RunRecord) -> (Vec<Finding>, Facts) {
                     ));
                     return (out, facts);
                 }
-                delivered += a;
+                delivered += *announced as u128;
                 Act::Pull(n, Some((*begin, *announced)))
             }
             (k, Res::End) if k.is_pull() => {
@@ -1376,6 +1398,7 @@ pub fn evaluate_c19(cfg: &RunCfg, rec: &RunRecord) -> (Vec<Finding>, Facts) {
                         lens: vec![],
                         exhausted: false,
                         impossible: false,
+                        skipped: 0,
                     },
                 });
             }
